@@ -39,7 +39,10 @@ ASSUMPTIONS = ["'irregular spacing' is read as gaps that vary over the range: ne
                "return_indices=False results are judged inside the matched span reported by the return_indices=True call "
                "on the same input (the two forms are documented as the same fit)",
                "held-out times lie inside the span of the returned pairs (no extrapolation claim)",
-               "the drift tolerance assumes the reported drift is a least-squares slope over the returned pairs"]
+               "the drift tolerance assumes the reported drift is a least-squares slope over the returned pairs",
+               "KNOWN coarse_peak_split (genuine defect, corpus/C19/coarse_peak_split_bounds.json): wrong pairs / recall "
+               "are suppressed only in cases whose binned cross-correlation, recomputed by the check from the generated "
+               "data, is at least as high at a lag away from the true pairs as at them (about 1 case in 10^5)"]
 BUDGET = {"quick": 12000, "thorough": 400000}
 SHRINK = {"quick": True, "thorough": True}
 
@@ -245,7 +248,39 @@ def known_integer_span(case, f):
     return bins_short(t["tsa"], t["tsb"])
 
 
-KNOWN = {"integer_span_one_bin_short": known_integer_span}
+def coarse_peak_misleading(tsa, tsb, lag_true, tbin=TBIN):
+    """Independent re-computation of the coarse stage on the generated data: True when the highest value of the binned
+    (0/1 histograms, bin = tbin) cross-correlation outside the lags of the true pairs is at least as high as the
+    highest value at them - an offset that is no multiple of tbin splits the true peak over two neighbouring lags, so
+    that a one-event shift of a train with long runs of equal gaps ties with (or beats) either half.
+    lag_true = (tsa_i - tsb_i) / tbin of the true pairs."""
+    import scipy.signal
+    tmin = min(tsa.min(), tsb.min())
+    tmax = max(tsa.max(), tsb.max())
+    nb = int(np.floor((tmax - tmin) / tbin)) + 1
+    x = np.zeros(nb)
+    y = np.zeros(nb)
+    x[np.minimum(np.floor((tsa - tmin) / tbin).astype(np.int64), nb - 1)] = 1
+    y[np.minimum(np.floor((tsb - tmin) / tbin).astype(np.int64), nb - 1)] = 1
+    c = np.round(scipy.signal.correlate(x, y, mode="full"))
+    lags = np.arange(c.size) - (nb - 1)
+    inside = (lags >= np.floor(lag_true.min()) - 1) & (lags <= np.ceil(lag_true.max()) + 1)
+    if not inside.any() or inside.all():
+        return False
+    return bool(c[~inside].max() >= c[inside].max())
+
+
+def known_coarse_peak_split(case, f):
+    if f.kind not in ("C19.pairs_true", "C19.recall"):
+        return False
+    t = build(case)
+    both = t["keep_a"] & t["keep_b"]
+    if not both.any():
+        return False
+    return coarse_peak_misleading(t["tsa"], t["tsb"], (t["ta"][both] - t["tb"][both]) / TBIN)
+
+
+KNOWN = {"integer_span_one_bin_short": known_integer_span, "coarse_peak_split": known_coarse_peak_split}
 
 
 # --------------------------------------------------------------------------------------------------
